@@ -92,7 +92,7 @@ RStartFresh ==
   /\ ~Strict /\ IsEvent("StartFresh")
   /\ LET impl == KLof(Ev.kl)
          k0   == AdoptNew(impl)
-     IN /\ StartFreshL(ModeOf(Ev), Ev.nit, k0)
+     IN /\ \E aarg \in BOOLEAN : StartFreshL(ModeOf(Ev), Ev.nit, k0, aarg)
         /\ Chk("kl.canon", CanonBag(k0, Ev.sym) = CanonBag(InitList(Ev.sym), Ev.sym))
   /\ Chk("start", Ev.start = 0)
 
